@@ -1,7 +1,7 @@
 _HELPERS = ["xor_func", "min", "max", "sec", "csc", "cot", "sech", "csch", "coth", "asec", "acsc", "acot", "asech", "acsch", "acoth",
             "eq_func", "neq_func", "lt_func", "leq_func", "gt_func", "geq_func", "and_func", "or_func", "not_func"]
 _FLOORS = {"type:ode": 0.07, "type:dae": 0.05, "type:nla": 0.05, "type:algebraic": 0.1,
-           "nla-systems>=2": 0.08, "nla-multi-equation-system": 0.12, "nla-systems-interleaved": 0.03, "externals:1": 0.08, "externals:2": 0.03,
+           "nla-systems>=2": 0.08, "nla-multi-equation-system": 0.12, "nla-systems-interleaved": 0.03, "unary-plus-on": 0.15, "odd-scale": 0.01, "externals:1": 0.08, "externals:2": 0.03,
            "external-role:state": 0.01, "external-role:computed_constant": 0.03, "nla-system": 0.05, "helpers:0": 0.08,
            "nonvalid:underconstrained": 0.03, "nonvalid:overconstrained": 0.03, "nonvalid:invalid": 0.005, "nonvalid:unknown": 0.01,
            "nonvalid:null": 0.01, "nonvalid:unsuitably_constrained": 0.001}
